@@ -85,6 +85,10 @@ class _Index(object):
         # the binding exposes the buffer protocol, so numpy.array(x, copy=True) copies: honour numpy 2's copy keyword
         return out.copy() if copy else out
 
+    def __buffer__(self, flags):
+        # PEP 688: the binding's classes implement the buffer protocol (pyarrow.py_buffer(index) relies on it)
+        return memoryview(self._view())
+
     def __len__(self):
         return self._info()[2]
 
@@ -798,6 +802,10 @@ class NumpyArray(Content):
             return out.astype(dtype)
         return out.copy() if copy else out
 
+    def __buffer__(self, flags):
+        # PEP 688: the binding's NumpyArray implements the buffer protocol (pyarrow.py_buffer(layout.content) relies on it)
+        return memoryview(self.__array__())
+
     shape = property(lambda self: tuple(self._info()[2]))
     strides = property(lambda self: tuple(self._info()[3]))
     itemsize = property(lambda self: self._info()[4])
@@ -1110,3 +1118,6 @@ class ArrayBuilder(object):
 @_register
 class VirtualArray(Content):
     pass
+
+
+import akshim.virtual  # noqa: E402,F401  - replaces the placeholder above (and adds ArrayGenerator, ArrayCache, partitions)
